@@ -73,6 +73,9 @@ func newScope(rootProvider *provider, parent *scope, ctx context.Context, cancel
 
 	for _, descriptor := range initializers {
 		if _, err := s.createInstance(descriptor); err != nil {
+			// Release whatever was created for this scope before the failure
+			_ = s.Close()
+
 			return nil, &ResolutionError{
 				ServiceType: descriptor.Type,
 				ServiceKey:  descriptor.Key,
